@@ -327,7 +327,9 @@ def syncCreateTasks (s : Sys) (jo : JobObj) (rj : Job) (tasks : List Task) : Sys
   else
     let currentTasks := generateTaskRefs s.clock rj.status.tasks tasks
     let completion := getParallelTaskSummary s.d rj currentTasks
-    if completion.complete then (s, some (rj, tasks))
+    -- already complete: nothing more to create; tasks that were created without being recorded are
+    -- adopted here (as above) so that they are stopped with the others
+    if completion.complete then (s, some (rj, adoptUnrecordedTasks s jo tasks))
     else
       match computeMissingIndexesForCreation s.d rj (rj.indexes s.d) with
       | none => (s, none)
